@@ -22,6 +22,7 @@ func main() {
 	tier := flag.String("tier", "quick", "quick|thorough")
 	repo := flag.String("repo", "/repo", "repository to analyse")
 	verif := flag.String("verif", "/verif", "verif directory (evidence, known findings)")
+	outDir := flag.String("out", "", "directory for evidence output (default <verif>/evidence)")
 	explain := flag.String("explain", "", "replay file: re-derive and print the obligation it names")
 	list := flag.Bool("list", false, "list properties and rules")
 	fixturesOnly := flag.Bool("fixtures", false, "run only the fixture self-test for -prop (or all)")
@@ -54,6 +55,7 @@ func main() {
 		fmt.Fprintf(os.Stderr, "unknown property %q (use -list)\n", *prop)
 		os.Exit(2)
 	}
+	core.EvidenceDir = *outDir
 	os.Exit(run(*prop, *tier, *repo, *verif, seed, ""))
 }
 
